@@ -394,6 +394,8 @@ def run(ctx):
                     "prose_expect_items_not_modelled": info.get("spec", {}).get("prose_items", 0),
                     "prose_expect_items_as_named_predicates": info.get("spec", {}).get("prose_items_named", 0),
                     "named_predicates_checked_after_the_cascade": len(info.get("spec", {}).get("named_items_after_cascade", [])),
+                    "field_guards": ["%s:%s->%d" % tuple(x) for x in info.get("spec", {}).get("field_guards", [])],
+                    "field_guards_unrecognised": info.get("spec", {}).get("field_guards_unrecognised", []),
                     "order_theorems_for": info.get("spec", {}).get("order_theorems", []),
                     "order_differs_from_header_listing": info.get("spec", {}).get("order_differs", []),
                     "verify_before_release": info.get("release", []),
